@@ -48,6 +48,7 @@ class Arr:
     data: bool = False
     last: object = None
     why: str = ""
+    first: object = None  # what sits in entry 0 when that differs from the rule of the other entries (np.roll)
 
     def __str__(self):
         lag = "-inf" if self.lag <= NINF else ("+inf" if self.lag >= INF else str(self.lag))
@@ -57,6 +58,8 @@ class Arr:
             s += ",data"
         if self.last is not None:
             s += f",last={self.last}"
+        if self.first is not None:
+            s += f",first={self.first}"
         return s + ")"
 
 
@@ -116,10 +119,13 @@ def elementwise(*vals):
         elif s.dep == "len":
             lag, why = INF, "len(x) used as a value element-wise"
     last = None
+    first = None
     for a in arrs:
         if a.last is not None:
             last = a.last
-    return Arr(clamp(lag), dlen, False, last, why)
+        if a.first is not None:
+            first = a.first
+    return Arr(clamp(lag), dlen, False, last, why, first)
 
 
 ELEMENTWISE = {
@@ -333,7 +339,7 @@ class Frame:
                         # only the last entry changes; remember what flows there
                         self.env[name] = replace(before, data=False, last=v)
                     elif isinstance(v, Sc) and v.dep == "const":
-                        self.env[name] = replace(before, data=False)
+                        self.env[name] = replace(before, data=False, first=None) if k == 0 else replace(before, data=False)
                     else:
                         self.env[name] = taint(before, f"store at index {k} of a data-dependent value")
                 return
@@ -617,6 +623,13 @@ class Frame:
                 if isinstance(a, Arr) and _const_int(args[1]) == 0 and isinstance(c, Sc) and c.dep == "const":
                     return Arr(clamp(a.lag - 1) if a.lag > NINF and a.lag < INF else a.lag,
                                None if a.dlen is None else a.dlen + 1, False, None, a.why)
+                return TOP
+            if short == "roll" and len(av) == 2:
+                a = av[0]
+                if isinstance(a, Arr) and _const_int(args[1]) == 1:
+                    # entry j >= 1 is a[j-1] (one step older), entry 0 is the *last* entry of a: the whole sample
+                    return Arr(clamp(a.lag - 1) if NINF < a.lag < INF else a.lag, a.dlen, False, None, a.why,
+                               WHOLE("np.roll wraps the last entry round to the front"))
                 return TOP
             if short == "append" and len(av) == 2:
                 a, c = av
